@@ -25,7 +25,7 @@
    Polylines: width <= 1 never reaches this machinery (polyline/styled.rs: draw_iter over points(), StyledIter::Thin), so
    there is no `polyline_w1_is_thin` statement to make here; it is C19_polyline_* of the tri builder. *)
 From EG Require Import Base.Prelude Model.Geometry Model.Line Model.Thickline Model.Join Model.JoinTri.
-From EG Require Import Proofs.Join Proofs.JoinTri Proofs.JoinW1 Proofs.JoinTriDraw Proofs.JoinOutline.
+From EG Require Import Proofs.Join Proofs.JoinTri Proofs.JoinW1 Proofs.JoinTriDraw Proofs.JoinOutline Proofs.JoinOutlineAny Proofs.JoinCollapsed Proofs.JoinW1Collapsed.
 Set Default Timeout 60.
 
 Theorem C19_join_extents_w1 : forall l, extents l 1 SONone = Some (l, l).
@@ -75,3 +75,95 @@ Example C19_join_nonvacuous :
   jt_sorted_clockwise t = (P 0 4, P 0 0, P 3 0) /\
   option_map (@length (point * Z)) (jt_pixels t 1 Style.Center None) = Some 11%nat.
 Proof. vm_compute. split; reflexivity. Qed.
+
+(* ---- every stroke alignment (Proofs/JoinOutlineAny.v) ------------------------------------------------------------------
+   With thickness 1 the parallels iterator yields the centre line only for StrokeOffset::Left and ::Right as well (the "skip
+   centre" call of ParallelsIterator::new advances the other side), so Line::extents is the line itself twice for every
+   offset and the whole chain above holds for every alignment. *)
+Theorem C19_join_parallels_w1_left : forall l, parallels l 1 SOLeft = Some [(BS (l_start l) 0, LNormal)].
+Proof. exact parallels_w1_left. Qed.
+
+Theorem C19_join_parallels_w1_right : forall l, parallels l 1 SORight = Some [(BS (l_start l) 0, LNormal)].
+Proof. exact parallels_w1_right. Qed.
+
+Theorem C19_join_extents_w1_any : forall l so, extents l 1 so = Some (l, l).
+Proof. exact extents_w1_any. Qed.
+
+Theorem C19_join_linejoin_w1_any : forall so a b c, pt_in_i32 b = true ->
+  exists j, lj_from_points a b c 1 so = Some j /\ join_at b j.
+Proof. exact lj_from_points_w1_any. Qed.
+
+Theorem C19_join_tri_edge_w1_any : forall so ct idx y,
+  pt_in_i32 (fst (fst ct)) = true -> pt_in_i32 (snd (fst ct)) = true -> pt_in_i32 (snd ct) = true ->
+  jt_edge_scanline ct 1 so idx y =
+  Some (bresenham_intersection (sl_new_empty y) (L (vtx ct (idx + 1)) (vtx ct (idx + 2)))).
+Proof. exact jt_edge_scanline_w1_any. Qed.
+
+(* Triangle::is_collapsed never leaves the modelled arithmetic for width 1 *)
+Theorem C19_join_is_collapsed_w1_defined : forall so a b c,
+  pt_in_i32 a = true -> pt_in_i32 b = true -> pt_in_i32 c = true ->
+  exists r, jt_is_collapsed (a, b, c) 1 so = Some r.
+Proof. exact jt_is_collapsed_w1_some_any. Qed.
+
+(* the full statement for every alignment: Center and Outside unconditionally; Inside (the only alignment for which
+   ScanlineIntersections::new honours is_collapsed) whenever Triangle::is_collapsed is false - a collapsed Inside stroke
+   paints Triangle::scanline_intersection of the whole triangle instead (header), which is not "its three edge lines" read
+   literally; p_tri_outline compares that case.  w1_outline_case t al = match al with Inside => jt_is_collapsed
+   (jt_sorted_clockwise t) 1 SORight = Some false | _ => True end. *)
+Theorem C19_join_tri_outline_w1_any : forall t al, tri_big t -> w1_outline_case t al ->
+  let '(a, b, c) := jt_sorted_clockwise t in
+  exists px, jt_pixels t 1 al None = Some px /\
+    (forall pc, In pc px -> snd pc = 1) /\
+    (forall p, In p (map fst px) <-> In p (line_points (L b c)) \/ In p (line_points (L c a)) \/ In p (line_points (L a b))).
+Proof. exact tri_outline_w1_any. Qed.
+
+Theorem C19_join_tri_outline_w1_outside : forall t, tri_big t ->
+  let '(a, b, c) := jt_sorted_clockwise t in
+  exists px, jt_pixels t 1 Style.Outside None = Some px /\
+    (forall pc, In pc px -> snd pc = 1) /\
+    (forall p, In p (map fst px) <-> In p (line_points (L b c)) \/ In p (line_points (L c a)) \/ In p (line_points (L a b))).
+Proof. exact tri_outline_w1_outside. Qed.
+
+(* the Inside hypothesis is satisfiable: a proper triangle whose Inside stroke of width 1 is not collapsed *)
+Theorem C19_join_w1_inside_case_nonvacuous : w1_outline_case (P 0 0, P 20 0, P 0 20) Style.Inside.
+Proof. exact w1_inside_not_collapsed. Qed.
+
+(* ---- the collapsed Inside stroke (Proofs/JoinCollapsed.v), any width >= 1, with or without a fill colour: pixels() is, as a
+   set, the rows of Triangle::scanline_intersection of the clockwise triangle between the top and the bottom vertex - the rows
+   Triangle::points() is made of - every item in the stroke colour.  With width 1 only degenerate (colinear / coincident)
+   triangles collapse, and the rows are those of the single Bresenham line between the first and the last vertex in (y,x) order.
+   With C19_join_tri_outline_w1_any this describes the width-1 stroke of every triangle and every alignment.
+   tylo / tyhi = smallest / largest vertex y. *)
+Theorem C19_join_collapsed_inside_pixels : forall t w fill, tri_big t -> 0 < w ->
+  jt_is_collapsed (jt_sorted_clockwise t) w SORight = Some true ->
+  exists px, jt_pixels t w Style.Inside fill = Some px /\
+    (forall pc, In pc px -> snd pc = 1) /\
+    (forall p, In p (map fst px) <->
+               tylo t <= py p <= tyhi t /\ In p (sl_points (jt_scanline_intersection (jt_sorted_clockwise t) (py p)))).
+Proof. exact collapsed_inside_pixels. Qed.
+
+Theorem C19_join_collapsed_inside_nonvacuous :
+  jt_is_collapsed (jt_sorted_clockwise (P 0 0, P 10 1, P 20 0)) 3 SORight = Some true /\
+  jt_is_collapsed (jt_sorted_clockwise (P 0 0, P 5 5, P 9 9)) 1 SORight = Some true.
+Proof. exact collapsed_inside_exists. Qed.
+
+(* ---- Triangle::is_collapsed with stroke width 1 (Proofs/JoinW1Collapsed.v): a width-1 join is never Degenerate, and the
+   inner corner (the vertex itself) is on the wrong side of the opposite edge exactly when the triangle has no area.  So
+   w1_outline_case holds for EVERY proper triangle and every alignment, and clause 6 reads: the 1 px outline of a triangle with
+   non-zero area is the union of its three edge lines, for Inside, Center and Outside alignment alike; a triangle without area
+   (colinear / coincident vertices) is the same three lines for Center and Outside and the rows of scanline_intersection - the
+   single Bresenham line between its extreme vertices - for Inside (C19_join_collapsed_inside_pixels). *)
+Theorem C19_join_is_collapsed_w1 : forall so t, tri_big t ->
+  jt_is_collapsed (jt_sorted_clockwise t) 1 so = Some (jt_area_doubled t =? 0).
+Proof. exact jt_is_collapsed_w1_iff_degenerate. Qed.
+
+Theorem C19_join_linejoin_w1_never_degenerate : forall x y z,
+  is_degenerate (lj_from_extents y 1 (L x y) (L x y) (L y z) (L y z)) = false.
+Proof. exact lj_w1_not_degenerate. Qed.
+
+Theorem C19_join_tri_outline_w1_proper : forall t al, tri_big t -> jt_area_doubled t <> 0 ->
+  let '(a, b, c) := jt_sorted_clockwise t in
+  exists px, jt_pixels t 1 al None = Some px /\
+    (forall pc, In pc px -> snd pc = 1) /\
+    (forall p, In p (map fst px) <-> In p (line_points (L b c)) \/ In p (line_points (L c a)) \/ In p (line_points (L a b))).
+Proof. exact tri_outline_w1_proper. Qed.
